@@ -38,7 +38,9 @@ Inductive sop :=
 | SLet               (* (let (...) ...): a new scope under the current one *)
 | SCall (c : nat)    (* call of a lambda / function whose closure scope is c: a new scope with parents [c; current] *)
 | SEnd               (* the let / the call returns *)
-| SRun.              (* (run form): Share the current scope, start a routine in it *)
+| SRun               (* (run form): Share the current scope, start a routine in it *)
+| SInst.             (* (set-synchronized (make-instance ..) t): the scope of a flavors instance - no parents,
+                        synchronized; it is on nobody's stack: a method call reaches it as SCall c *)
 
 Definition sstep (st : sstate) (i : nat) (o : sop) : option sstate :=
   match nth_error (stacks st) i with
@@ -52,6 +54,7 @@ Definition sstep (st : sstate) (i : nat) (o : sop) : option sstate :=
           else None
       | SEnd => Some (mkSS (pars st) (syn st) (upd (stacks st) i rest))
       | SRun => Some (mkSS (pars st) (mark (anc st s) (syn st)) (stacks st ++ [[s]]))
+      | SInst => Some (mkSS (pars st ++ [[]]) (syn st ++ [true]) (stacks st))
       end
   | _ => None
   end.
@@ -65,13 +68,17 @@ Fixpoint srun (st : sstate) (sch : list (nat * sop)) : option sstate :=
   | (i, o) :: sch' => match sstep st i o with Some st' => srun st' sch' | None => None end
   end.
 
-(* the guard: a call uses a closure that is lexically visible - its scope is reached from the caller's scope.
-   (A function object that reaches a routine any other way - a global function defined inside a let, a lambda
-   received over a channel - brings a closure scope that Share never saw: refuted in ScopeProofs.v.) *)
+Definition synced (st : sstate) (t : nat) : bool := nth t (syn st) false.
+
+(* the guard: a call uses a closure that is lexically visible - its scope is reached from the caller's scope -
+   or whose scope is synchronized already (a closure shared by an earlier run; the scope of a synchronized flavors
+   instance, which Instance.Receive makes the first parent of the method's scope).
+   (An unsynchronized closure scope that reaches a routine any other way - a global function defined inside a let,
+   a lambda received over a channel - is one that Share never saw: refuted in ScopeProofs.v.) *)
 Definition guardb (st : sstate) (i : nat) (o : sop) : bool :=
   match o with
   | SCall c => match nth_error (stacks st) i with
-               | Some (s :: _) => existsb (Nat.eqb c) (anc st s)
+               | Some (s :: _) => existsb (Nat.eqb c) (anc st s) || synced st c
                | _ => false
                end
   | _ => true
@@ -88,7 +95,29 @@ Fixpoint srun_g (st : sstate) (sch : list (nat * sop)) : option sstate :=
 Definition touches (st : sstate) (i t : nat) : Prop :=
   exists stk s, nth_error (stacks st) i = Some stk /\ In s stk /\ In t (anc st s).
 
-Definition synced (st : sstate) (t : nat) : bool := nth t (syn st) false.
+(* ---- a seeded variant of Scope.Share ("do not walk a chain that was shared before"): the loop over the parents
+   stops - break - at the first parent that is synchronized already, so the parents AFTER it are skipped.  A
+   transcription of the recursive Go function; fuel S s is enough as in walk ---- *)
+Fixpoint share_break (ps : list (list nat)) (fuel s : nat) (sy : list bool) : list bool :=
+  match fuel with
+  | O => sy
+  | S f =>
+      (fix loop (l : list nat) (sy : list bool) : list bool :=
+         match l with
+         | [] => sy
+         | p :: l' => if nth p sy false then sy else loop l' (share_break ps f p sy)
+         end) (nth s ps []) (upd sy s true)
+  end.
+Definition sstep_break (st : sstate) (i : nat) (o : sop) : option sstate :=
+  match o, nth_error (stacks st) i with
+  | SRun, Some (s :: _) => Some (mkSS (pars st) (share_break (pars st) (S s) s (syn st)) (stacks st ++ [[s]]))
+  | _, _ => sstep st i o
+  end.
+Fixpoint srun_break (st : sstate) (sch : list (nat * sop)) : option sstate :=
+  match sch with
+  | [] => Some st
+  | (i, o) :: sch' => if guardb st i o then match sstep_break st i o with Some st' => srun_break st' sch' | None => None end else None
+  end.
 
 (* ---- the other repair in function.go: a form's argument slot is replaced by its compiled version on first
    evaluation.  The slot holds None (still a list) or Some c (compiled object c).  A thread reads the slot
